@@ -439,4 +439,16 @@ Section Accept.
     assert (p_key n = p_key w) by (apply U; auto; congruence).
     rewrite H0, Kw. exact Vf.
   Qed.
+
+  (* a "shadow" entry in the joining list that re-uses the address of a remaining member never takes
+     precedence: the sender is looked up first-match over Remaining ++ Joining *)
+  Lemma remaining_entry_takes_precedence : forall p md t,
+    gp_md p = Some md -> has_addr (t_remaining t) (md_addr md) = true -> vm p t = None ->
+    exists signer, In signer (t_remaining t) /\ p_addr signer = md_addr md
+      /\ verify (p_key signer) (message_for_signing (md_beacon md) (gp_body p) t) (md_sig md) = true.
+  Proof.
+    intros p md t Hmd HA V. destruct (verify_message_ok _ _ _ Hmd V) as (signer & Fd & K & Vf).
+    exists signer. destruct (find_by_addr_in _ _ _ Fd) as [_ Sa]. repeat split; auto.
+    unfold find_by_addr in Fd. eapply find_app_first; [exact Fd|exact HA].
+  Qed.
 End Accept.
